@@ -1,12 +1,12 @@
 """C09 - cyclic configurations are always rejected and nothing is executed."""
 import graphs
-THEOREMS = [("Properties.C09", "C09_holds"), ("Properties.C09", "C09_index_holds")]
+THEOREMS = [("Properties.C09", "C09_holds"), ("Properties.C09", "C09_index_holds"), ("Harness.OracleProof", "cyclic_b_iff")]
 CORRESPONDENCE = "Dag / Index::new / analyze on cyclic inputs == Model.Dag.api_groups (ErrCycle)"
 LEVEL_NOTE = ("Coq theorem C09_holds (graph level, unbounded): whenever a cycle is reachable from the roots the model of the grouping API returns "
               "ErrCycle - never Ok, never Panic (usize underflow / index out of range), never fuel exhaustion, so termination is part of the "
               "statement. Tied to src/core/graph.rs and Index::new by hooks on exhaustive small digraphs, random graphs and generated configs.")
 TRUSTED = ["Coq 8.16.1 kernel; no axioms (closed under the global context)",
-           "extraction (ExtrOcamlBasic) + ocaml/vmodel.ml; Harness/Glue.v (cyclic_b oracle not proved equivalent to cyclic_from)",
+           "extraction (ExtrOcamlBasic) + ocaml/vmodel.ml; Harness/Glue.v (its cycle oracle cyclic_b - successor iteration, independent of the model's Kahn loop - is proved equivalent to cyclic_from: Harness/OracleProof.v cyclic_b_iff)",
            "hooks src/verif.rs",
            "'run starts no executable' is covered by C05/C06 scenarios (a rejected configuration never reaches the plan); here: the grouping APIs",
            "modelled, not verified: the Rust source itself"]
